@@ -143,8 +143,8 @@ def generate(repo):
     out.append('   One entry per (goroutine kind, memory cell, mode, lockset); position = first site.')
     out.append('   cell syntax: pkg.Type.f1.f2 = field path | pkg:name = package variable | suffix * = pointee of the')
     out.append('   pointer stored in the cell | suffix [] = contents of the map/slice stored in the cell | ?T = untraced value of type T')
-    out.append('   source digest %s; %d accesses at %d sites in %d functions of %d packages' % (
-        key, len(groups), len(data['accesses']), data.get('functions', 0), data.get('packages', 0)))
+    out.append('   %d accesses at %d sites in %d functions of %d packages' % (
+        len(groups), len(data['accesses']), data.get('functions', 0), data.get('packages', 0)))
     out.append('   goroutine roots:')
     for k in KINDS:
         out.append('     %-11s %s' % (k, ', '.join(r.replace('github.com/markusressel/fan2go/', '') for r in data['roots'].get(k, []))))
